@@ -133,9 +133,10 @@ def resolve_table(ctx: Ctx, I: Interp) -> None:
         if l.kind != "return":
             continue
         v = l.value
-        ok = isinstance(v, SOpaque) and v.__dict__.get("pytype") == "list" and isinstance(v.__dict__.get("of"), SOpaque) \
-            and (v.__dict__["of"].__dict__.get("iter_descr") or (None,))[0] == "values" \
-            and isinstance(v.__dict__["of"].__dict__["iter_descr"][1], SDict)
+        src = v.__dict__.get("of") if isinstance(v, SOpaque) and v.__dict__.get("pytype") == "list" else \
+            (v.meta.get("copy_of") if isinstance(v, SObj) and v.meta.get("list_ctor") == "list" else None)
+        ok = isinstance(src, SOpaque) and (src.__dict__.get("iter_descr") or (None,))[0] == "values" \
+            and isinstance(src.__dict__["iter_descr"][1], SDict)
         ctx.check(ok, "C10.result", "result is list(<name->dependency dict>.values()) (insertion order, no re-sorting)", RES,
                   f"return {short(v)}", f"the resolved list is {short(v)}, not the insertion-ordered values of the name map: "
                   f"names are no longer ordered by first occurrence", witness="resolution of [b-1.0, a-1.0] must keep b first")
